@@ -20,7 +20,7 @@ func init() { core.Register(c07{}) }
 func (c07) ID() string    { return "C07" }
 func (c07) Level() string { return "exploration" }
 func (c07) Rule() string {
-	return "seeded populations with many same-typed providers and name assignments {custom, default (package/type), empty custom = default}; single-valued points of kinds {*T, interface, any} requesting names {present+assignable, absent, present but not assignable} x required/optional, combined with 0-3 other (by-type, qualified, func) fields on the same holder, on palette nodes (dynamic tags) and reflect.StructOf holders (literal tags), each under 3 orders. Oracle: reference model (name -> registered component, assignability by reflect.Type.AssignableTo): the named point holds exactly that component; unsatisfiable+required on a certainly-created holder => Run returns an error (a panic is a violation); unsatisfiable+optional => start unaffected, field untouched. Second part: duplicate registrations (custom=custom, custom=another's default name, same unnamed type twice, same object twice) against the real SingletonRegistry: only the first object may ever be visible. non-trivial = a by-name point among >= 2 same-typed providers, or an absent/incompatible name, or a duplicate attempt; distinct = canonical scenario signature; provider types of equal name in packages of equal base name addressed by default name; user-preset values in optional unsatisfiable by-name points must survive failed and repeated creation attempts of their holder; generic providers (default names with a bracketed comma); two applications in one process with on-demand creation in the first after the second ran; a post-processor holder with by-name points; absent names equal to the default name of a type whose instances all carry custom names; fields of defined pointer types; by-name points found by a user-defined scanner mapping its tag to wire; embeddedByName family (tagged embedded interface wired by name, present and absent); the exported by-type resolver among the providers; custom names containing an equals sign"
+	return "seeded populations with many same-typed providers and name assignments {custom, default (package/type), empty custom = default}; single-valued points of kinds {*T, interface, any} requesting names {present+assignable, absent, present but not assignable} x required/optional, combined with 0-3 other (by-type, qualified, func) fields on the same holder, on palette nodes (dynamic tags) and reflect.StructOf holders (literal tags), each under 3 orders. Oracle: reference model (name -> registered component, assignability by reflect.Type.AssignableTo): the named point holds exactly that component; unsatisfiable+required on a certainly-created holder => Run returns an error (a panic is a violation); unsatisfiable+optional => start unaffected, field untouched. Second part: duplicate registrations (custom=custom, custom=another's default name, same unnamed type twice, same object twice) against the real SingletonRegistry: only the first object may ever be visible. non-trivial = a by-name point among >= 2 same-typed providers, or an absent/incompatible name, or a duplicate attempt; distinct = canonical scenario signature; provider types of equal name in packages of equal base name addressed by default name; user-preset values in optional unsatisfiable by-name points must survive failed and repeated creation attempts of their holder; generic providers (default names with a bracketed comma); two applications in one process with on-demand creation in the first after the second ran; a post-processor holder with by-name points; absent names equal to the default name of a type whose instances all carry custom names; fields of defined pointer types; by-name points found by a user-defined scanner mapping its tag to wire; embeddedByName family (tagged embedded interface wired by name, present and absent); the exported by-type resolver among the providers; custom names containing an equals sign; unfitLazy family (an optional interface point naming a lazy component that does not fit and could not be created)"
 }
 func (c07) Assumptions() []string {
 	return []string{
